@@ -423,6 +423,11 @@ CHECKS["C06"]["runs"] = CHECKS["C06"]["runs"] + [
 # the client half of C09 under a sliding live window (assertions carry C11's label)
 CHECKS["C09"]["runs"] = CHECKS["C09"]["runs"] + [dict([r for r in CHECKS["C11"]["runs"] if r["name"] == "run.cli.traditional"][0], name="client.traditional", prop="C11")]
 
+# SegmentMaxSize in the fMP4 write path (VP9: the sample payload is the frame itself, symbolically and natively)
+MAXSZ = _mx("run.mux.fmp4.vp9.maxsize", 2, 0, 5, 6, ["end", "cut", "size-limit", "decode-segment"], VCODEC=2, VKINDS=2, SEGMAXSIZE=60, SYMMAXSIZE=1)
+MAXSZLL = _mx("run.mux.ll.vp9.maxsize", 3, 0, 4, 5, ["end", "size-limit"], VCODEC=2, VKINDS=2, SEGMAXSIZE=60, SYMMAXSIZE=1)
+CHECKS["C18"]["runs"] = CHECKS["C18"]["runs"] + [MAXSZ, MAXSZLL]
+
 WSTEP = {"name": "step.window", "files": [G + "c04_step.go"] + MUX, "fn": "VerifH_C04_step", "workers": 16, "params_quick": {"MAXMSN": 99999}, "params_thorough": {"MAXMSN": 1073741824},
          "reach": ["rotated", "evicted", "end"], "budget_quick": 900, "budget_thorough": 7200, "qtimeout": 60000}
 for pid in ("C03", "C04", "C05", "C18"):
